@@ -129,7 +129,13 @@ pub fn transcript(tier: Tier, seed: u64) -> Vec<String> {
                 let mut out = vec![];
                 for a in &a_alpha {
                     for b in &b_alpha {
-                        let bk = PublicKey::from_le_bytes(*b).unwrap();
+                        let bk = match PublicKey::from_le_bytes(*b) {
+                            Ok(k) => k,
+                            Err(_) => {
+                                out.push(format!("group|{mname}|g={g}|a={}|B={}\trefusedB", hex(a), hex(b)));
+                                continue;
+                            }
+                        };
                         let (r, _, _) = with_script(a, || {
                             let c = SrpClientChallenge::new(ns("alice"), ns("password123"), g, m_le, bk, salt);
                             (*c.client_public_key(), *c.client_proof())
